@@ -453,3 +453,28 @@ pub fn shuffle_cycles(p: &Pos) -> Vec<[RMove; 4]> {
     out
 }
 
+
+/// A forced four-ply cycle from `p` plus its first move again: a, b (only reply), a2, b2 (only reply) lead back to
+/// `p`; after a b a2 b2 a the side to move has exactly one legal move, which is also its move of four plies ago -
+/// the move the engine's root repetition filter removes.
+pub fn forced_cycle(p: &Pos) -> Option<[RMove; 5]> {
+    for a in p.legal() {
+        let q1 = p.make(a);
+        let l1 = q1.legal();
+        if l1.len() != 1 {
+            continue;
+        }
+        let q2 = q1.make(l1[0]);
+        for a2 in q2.legal() {
+            let q3 = q2.make(a2);
+            let l3 = q3.legal();
+            if l3.len() != 1 {
+                continue;
+            }
+            if q3.make(l3[0]) == *p {
+                return Some([a, l1[0], a2, l3[0], a]);
+            }
+        }
+    }
+    None
+}
